@@ -495,8 +495,11 @@ def align_variable_names_with_convention(
                 renamings[node].add(substitute)
                 for refnode in _get_uses_of(node, partial_tree, source):
                     renamings[refnode].add(substitute)
+            parameter_names = {arg.arg for arg in core.walk(partial_tree.args, ast.arg)}
             for node in parsing.iter_assignments(partial_tree):
                 name = node.id
+                if name in parameter_names:
+                    continue  # Parameters keep their names
                 substitute = style.rename_variable(name, private=False, static=False)
                 renamings[node].add(substitute)
                 for refnode in _get_uses_of(node, partial_tree, source):
